@@ -549,6 +549,51 @@ fn fixed_bases(b: &mut B, d: &Docs, rng: &mut ChaCha20Rng) {
         let t = b.key_doors(k_gv, "json");
         b.push("Ed25519VerificationKey/json", serde_json::to_vec(&*v).unwrap(), Kind::JsonText, Some(c), t);
     }
+    // ---- honest ed25519 values for EVERY first byte ----------------------------------------------
+    // the string form of these keys is bytes-hex, and the decoders try several formats on one
+    // string: an honest value whose hex happens to start like another format ("5b" = '[', "7b" =
+    // '{', "22" = '"', digits, "01" = the CBOR-v1 prefix ...) must still round-trip. One honest
+    // signature and one honest verification key per first-byte value, honest items only.
+    {
+        use mithril_common::crypto_helper::ed25519::Ed25519Signer;
+        let k_gs = "common::ProtocolGenesisSignature(ed25519)";
+        let k_gv = "common::ProtocolGenesisVerificationKey(ed25519)";
+        let signer = Ed25519Signer::create_deterministic_signer();
+        let mut seen_s = [false; 256];
+        let mut seen_v = [false; 256];
+        let (mut ns, mut nv) = (0, 0);
+        for i in 0u32..20_000 {
+            if ns < 256 {
+                let g = signer.sign(&i.to_le_bytes());
+                let bytes = g.to_bytes_vec().unwrap();
+                if !seen_s[bytes[0] as usize] {
+                    seen_s[bytes[0] as usize] = true;
+                    ns += 1;
+                    let c = canon(&*g);
+                    let mut t = vec![b.direct("common::ProtocolKey<ed25519 Signature>::from_bytes")];
+                    t.extend(b.key_doors(k_gs, "bytes"));
+                    b.push(&format!("honest-only:Ed25519Signature first byte {:02x}", bytes[0]), bytes, Kind::Raw, Some(c), t);
+                }
+            }
+            if nv < 256 {
+                let mut seed = [0u8; 32];
+                seed[..4].copy_from_slice(&i.to_le_bytes());
+                let v = Ed25519Signer::create_test_signer(<rand_chacha::ChaCha20Rng as rand_core::SeedableRng>::from_seed(seed)).verification_key();
+                let bytes = v.to_bytes_vec().unwrap();
+                if !seen_v[bytes[0] as usize] {
+                    seen_v[bytes[0] as usize] = true;
+                    nv += 1;
+                    let c = canon(&*v);
+                    let mut t = vec![b.direct("common::ProtocolKey<ed25519 VerifyingKey>::from_bytes")];
+                    t.extend(b.key_doors(k_gv, "bytes"));
+                    b.push(&format!("honest-only:Ed25519VerificationKey first byte {:02x}", bytes[0]), bytes, Kind::Raw, Some(c), t);
+                }
+            }
+            if ns == 256 && nv == 256 {
+                break;
+            }
+        }
+    }
     // ---- Merkle proofs -----------------------------------------------------------------------
     {
         let leaves: Vec<MKTreeNode> = (0..7).map(|i| MKTreeNode::from(format!("leaf-{i}").as_str())).collect();
@@ -762,6 +807,9 @@ pub fn structured_items(c: &Corpus, entries: &[Entry], seed: u64, tier: Tier, sh
                 honest: true,
                 structured: true,
             });
+        }
+        if base.label.starts_with("honest-only:") {
+            continue;
         }
         // anomalies of the hex transport itself
         for t in &base.transports {
